@@ -75,9 +75,13 @@ Definition sc_minFromMax (s : sc) (maxSeqNr : Z) : Z :=
 Definition sc_resize (s : sc) (nw : Z) : res sc :=
   if sc_w s <? nw then Ok (mkSc (sl_realloc czero (sc_sl s) nw) (sc_n s) nw)
   else if nw <? sc_w s then
-    (* copy(s.counters, s.counters[:nw]) copies the first nw entries onto themselves *)
-    do sl <- sl_truncate "seqCounters.resize:slice" (sc_sl s) nw;
-    Ok (mkSc sl (sc_n s) nw)
+    (* if _nrCounters > nw { copy(s.counters, s.counters[_nrCounters-nw:_nrCounters]); _nrCounters = nw } *)
+    do r <- (if nw <? sc_n s
+             then do sl <- sl_copy "seqCounters.resize:slice" (sc_sl s) 0 (slen (sc_sl s)) (u32 (sc_n s - nw)) (sc_n s);
+                  Ok (sl, nw)
+             else Ok (sc_sl s, sc_n s));
+    do sl <- sl_truncate "seqCounters.resize:slice" (fst r) nw;
+    Ok (mkSc sl (snd r) nw)
   else Ok (mkSc (sc_sl s) (sc_n s) nw).
 
 (** for i := 0; i < n; i++ { if counters[i].seqNr < bound { acc++ } } *)
@@ -125,7 +129,7 @@ Definition sc_add (s : sc) (seqNr : Z) : res sc :=
     else if currMax <? seqNr then
       let currMin := sc_minFromMax s seqNr in
       do nd0 <- sc_count_below (sc_sl s) currMin 0 (Z.to_nat (sc_n s)) 0;
-      let nd := if sc_n s =? sc_w s then u32 (nd0 + 1) else nd0 in
+      let nd := if (sc_n s =? sc_w s) && (nd0 <? sc_n s) then u32 (nd0 + 1) else nd0 in
       do s1 <- (if 0 <? nd
                 then do sl <- sl_copy_tail "seqCounters.add:slice" (sc_sl s) 0 nd;
                      Ok (mkSc sl (u32 (sc_n s - nd)) (sc_w s))
@@ -239,7 +243,7 @@ Definition sdb_resize (b : sdb) (newSize : Z) : res sdb :=
     let shift := u32 (b_n b - newSize) in
     do sl <- sl_copy_tail "segDataBuffer.resize:slice" (b_sl b) 0 shift;
     do sl' <- sl_truncate "segDataBuffer.resize:slice" sl newSize;
-    Ok (mkSdb sl' newSize (b_size b))            (* c.size is not updated *)
+    Ok (mkSdb sl' newSize newSize)
   else Ok (mkSdb (sl_realloc izero (b_sl b) newSize) (b_n b) newSize).
 
 Fixpoint sdb_drop_loop (b : sdb) (seqNr i : Z) (n : nat) : res sdb :=
@@ -468,8 +472,8 @@ Definition with_gen (c : chan) (g : gen) : chan :=
 Fixpoint find_track (name : Z) (l : list track) : option track :=
   match l with [] => None | t :: r => if tr_name t =? name then Some t else find_track name r end.
 
-(** deriveAndSetBitrates / deriveAndSetFrameRates: only whether they panic.
-    A registered track without a buffer is a nil *segDataBuffer whose nrItems() dereferences nil. *)
+(** deriveAndSetBitrates / deriveAndSetFrameRates: only whether they panic. Since the repair
+    9aa9fdc a track without a buffer, with an empty buffer or with a zero total duration is skipped. *)
 Fixpoint sum_durs (l : list item) : Z := match l with [] => 0 | i :: t => i_dur i + sum_durs t end.
 
 Fixpoint derive_bitrates (g : gen) (l : list track) : res unit :=
@@ -478,9 +482,11 @@ Fixpoint derive_bitrates (g : gen) (l : list track) : res unit :=
   | t :: r =>
     do _ <- (if tr_btrt t then Ok tt
              else match lookup (tr_name t) (g_bufs g) with
-                  | None => Panic "segDataBuffer.nrItems:nil"
-                  | Some b => if sum_durs (takeZ (b_n b) (arr (b_sl b))) =? 0
-                              then Panic "channel.deriveAndSetBitrates:div" else Ok tt
+                  | None => Ok tt                           (* sdb == nil: continue *)
+                  | Some b => if b_n b =? 0 then Ok tt      (* nrItems() == 0: continue *)
+                              else if sum_durs (takeZ (b_n b) (arr (b_sl b))) =? 0
+                              then Ok tt                    (* totDur == 0: continue *)
+                              else Ok tt
                   end);
     derive_bitrates g r
   end.
@@ -491,7 +497,7 @@ Fixpoint derive_framerates (g : gen) (l : list track) : res unit :=
   | t :: r =>
     do _ <- (if negb (tr_video t) then Ok tt
              else match lookup (tr_name t) (g_bufs g) with
-                  | None => Panic "segDataBuffer.nrItems:nil"
+                  | None => Ok tt                           (* sdb == nil: continue *)
                   | Some b => Ok tt
                   end);
     derive_framerates g r
